@@ -408,6 +408,9 @@ class List(list, base.Symbolic, pg_typing.CustomTyping):
     if isinstance(value, Insertion):
       should_insert = True
       value = value.value
+      # Inserting an element that is already in this list inserts a copy.
+      if isinstance(value, base.Symbolic) and value.sym_parent is self:
+        value = value.clone()
 
     # Use the actual position for a negative index, so the path of the new
     # child and of the update do not depend on a later re-indexing.
